@@ -24,10 +24,11 @@ class C19(Prop):
                 # extension round: bridging lemmas of the extended translator
                 "NV.C19.poll_backend_eq", "NV.C19.ring_shape_eq", "NV.C19.queue_shape_eq", "NV.C19.clear_signals_eq",
                 "NV.C19.console_loop_eq", "NV.C19.console_queue_drops_oldest", "NV.C19.timer_order_eq",
-                "NV.C19.hb_protocol_eq",
+                "NV.C19.hb_protocol_eq", "NV.C19.join_loop_eq",
                 # ... and the theorems over all schedules
                 "NV.C19.bell_value_irrelevant", "NV.C19.blocked_writers_fifo_exactly_once",
-                "NV.C19.no_writer_left_asleep", "NV.C19.waiting_writer_wakes", "NV.C19.drop_oldest_never_blocks",
+                "NV.C19.no_writer_left_asleep", "NV.C19.waiting_writer_wakes", "NV.C19.woken_writer_pushes",
+                "NV.C19.drained_queue_releases_a_writer", "NV.C19.drop_oldest_never_blocks",
                 "NV.C19.console_worker_exits_after_stop", "NV.C19.console_worker_hangs_on_block_writer_queue",
                 "NV.C19.console_chunk_enqueued_before_completion", "NV.C19.tick_never_lost",
                 "NV.C19.owed_tick_starts_round"]
@@ -63,30 +64,50 @@ class C19(Prop):
     search_n = 400
     design_ref = "5/C19"
     technique = ("Lean 4 proof over all schedules (induction on the interleaving of atomic actions) + translator-generated "
-                 "constants + model/implementation correspondence on sequentialised schedules + real multi-thread runs "
+                 "constants, comparison operators and statement orders (regex over the comment-stripped function bodies, "
+                 "bridging lemmas as obligations) + model/implementation correspondence on sequentialised schedules for "
+                 "BOTH POSIX back ends (epoll, and the poll back end compiled on Linux) + real multi-thread runs "
                  "+ ThreadSanitizer (runtime part)")
-    level_text = ("Lean 4 theorems about executable models of the epoll event loop (eventfd doorbell + completion ring), "
-                  "async_queue (ring indices, drop-oldest / block-writer / fail), async_worker (create, thread wrapper, "
-                  "signal_stop, timed join) and the portable timer (stop flag, timed condition wait, join), quantified over "
-                  "every scheduler choice; the models are tied to the source by regenerated constants and by running the "
-                  "real code and the model on the same sequentialised schedules (identical traces); the Lean oracle judges "
-                  "every implementation trace, including real multi-thread runs")
-    level_note = ("trusted: Lean kernel; extract.py; the correspondence harness (differential, only generated schedules); the "
-                  "granularity of the atomic actions (one action = code between two synchronisation points; mutex, eventfd, "
-                  "condition-variable timed wait and pthread_join behave as specified - hypotheses, not verified). "
+    level_text = ("Lean 4 theorems about executable models of the event loop of both POSIX back ends (doorbell + completion "
+                  "ring; epoll/eventfd and poll/pipe are shown to be the same machine), async_queue (ring indices, "
+                  "drop-oldest / block-writer / fail; any number of writers asleep on the auto-reset event, clear at any "
+                  "moment), async_worker (create, thread wrapper, signal_stop, timed join), the console worker loop "
+                  "(terminates within five of its steps from every state at which stop is requested; chunk enqueued "
+                  "before its completion), the portable timer (stop flag, timed condition wait, join) and the "
+                  "heart-beat flag protocol (a tick is never swallowed by the clear and never leaves the backend in a "
+                  "blocking wait), quantified over every scheduler choice; the models are tied to the source by "
+                  "regenerated constants / operators / statement orders and by running the real code and the model on "
+                  "the same sequentialised schedules (identical traces); the Lean oracle judges every implementation "
+                  "trace, including real multi-thread runs; `judgeEv (events cmds) = []` is proved for all command lists")
+    level_note = ("trusted: Lean kernel; extract.py and the regexes of the translator (a shape they do not recognise is a "
+                  "broken tie, never a silent default); the correspondence harness (differential, only generated schedules); "
+                  "the granularity of the atomic actions (one action = code between two synchronisation points; mutex, eventfd, "
+                  "pipe, select with a finite time-out, condition-variable waits and pthread_join behave as specified - "
+                  "hypotheses, not verified); the poll back end is compiled by undefining __linux__ after all system "
+                  "headers were included (Linux pipe semantics, not BSD/macOS). "
                   "RUNTIME PART, NOT PROOF: the data-race clause is checked only by ThreadSanitizer on the executed runs")
     rule = ("cases = corpus + known-finding inputs + boundary list + seeded random sequentialised schedules (several logical "
-            "producers posting / waking / waiting with max 1..64; enqueue / dequeue on queues of capacity 1..5 under each "
-            "flag combination incl. invalid sizes and short buffers; worker create-held / release / step / stop / join(t) / "
-            "destroy at every phase; timer init / start / stop / restart / cleanup) + real multi-thread runs with seeded "
-            "yields; a case is non-trivial when its trace has >= 2 lines; distinct = distinct canonical implementation trace")
+            "producers posting / waking / waiting with max 1..64, a third of them on the poll back end; enqueue / dequeue / "
+            "clear on queues of capacity 1..5 under each flag combination incl. invalid sizes, short buffers and a blocked "
+            "writer; worker create-held / release / step / stop / join(t) / destroy at every phase, default and explicit "
+            "stack size; timer init / start / stop / restart / cleanup) + real multi-thread runs with seeded yields (post, "
+            "queue, qclear = several writers asleep while the consumer clears, worker, timer, console = the real console "
+            "worker on a pipe with shutdown at four stages of its life); a case is non-trivial when its trace has >= 2 "
+            "lines; distinct = distinct canonical implementation trace")
     not_covered = ["data races: runtime check only (ThreadSanitizer on the runs made), no proof",
-                   "kernel scheduling fairness; poll and IOCP back ends (not compiled on Linux); the poll back end mixes "
-                   "1-byte wake-ups with 8-byte completions in one pipe (read from the source, not executable here)",
-                   "heart_beat_flag: the race is shown with the real timer callback against the real call_heart_beat() "
-                   "(open known finding C19-heart-beat-flag-race); the full backend() loop is not run under ThreadSanitizer",
-                   "eventfd counter overflow after 2^64-2 un-waited doorbell writes",
-                   "several writers blocked at once on a BLOCK_WRITER queue are exercised only by the multi-thread runs"]
+                   "kernel scheduling fairness; the IOCP back end and async_worker_win32.c (Windows); BSD/macOS pipe and "
+                   "poll() semantics where they differ from Linux (the poll back end runs on Linux pipes here)",
+                   "the full backend() loop is not run under ThreadSanitizer; the heart-beat protocol theorems are about "
+                   "the model HbSys, tied to src/backend.c by the order of three statements (hb_protocol_eq) and the "
+                   "TSan run of the real callback against the real call_heart_beat - there is no trace-level "
+                   "correspondence for it",
+                   "eventfd counter overflow after 2^64-2 un-waited doorbell writes (post would return -1 although the "
+                   "completion is queued and delivered)",
+                   "async_runtime_wait: time-out conversion, EINTR, MAX_EVENTS clamp, socket readiness branch; "
+                   "async_runtime_add/modify/remove",
+                   "error paths of the constructors (calloc / pthread_create / event init failing)",
+                   "timer drift correction (next_tick arithmetic); platform_event_reset, timed event wait, mutex_trylock",
+                   "process_io console branch in src/comm.c (needs the initialised driver: C12/C13 harnesses)"]
 
     # ---- translator: ORDER of the state stores relative to the spawn / the user procedure -------------------
     STATE_NAMES = {"ASYNC_WORKER_STOPPED": "workerStopped", "ASYNC_WORKER_RUNNING": "workerRunning",
@@ -281,6 +302,16 @@ class C19(Prop):
                 "/-- C: `async_queue_clear` sets `not_full` on a BLOCK_WRITER queue (writers asleep on a full queue must be released) -/",
                 "def clearSignalsNotFull : Bool := " + b(has(
                     qc, r"if\s*\(\s*queue->flags\s*&\s*ASYNC_QUEUE_BLOCK_WRITER\s*\)\s*\{?\s*platform_event_set\s*\(\s*&queue->not_full\s*\)"))]
+        # -- timed join: the loop condition and what follows it ---------------------------------------------------
+        wk = rd("lib/async/async_worker_pthread.c")
+        jb = body_of(wk, "async_worker_join", "const:async_worker_join")
+        mj = need(jb, r"while\s*\(\s*worker->state\s*(!=|==)\s*ASYNC_WORKER_STOPPED\s*&&\s*elapsed_ms\s*(<=|<|>=|>)\s*timeout_ms\s*\)",
+                  "join:loop-condition")
+        out += ["/-- C: operators of the timed join's loop `while (worker->state OP1 ASYNC_WORKER_STOPPED && elapsed_ms OP2 timeout_ms)` -/",
+                'def joinLoopOps : String × String := ("%s", "%s")' % (mj.group(1), mj.group(2)),
+                "/-- C: behind the loop `pthread_join` is called only under `if (worker->state == ASYNC_WORKER_STOPPED)` (then `return true`), otherwise `return false` -/",
+                "def joinJoinsOnlyWhenStopped : Bool := " + b(ordered(jb, [
+                    r"nanosleep\s*\(", r"elapsed_ms\s*\+=", r"if\s*\(\s*worker->state\s*==\s*ASYNC_WORKER_STOPPED\s*\)\s*\{\s*pthread_join\s*\(\s*worker->thread\s*,\s*NULL\s*\)\s*;\s*return\s+true\s*;\s*\}\s*return\s+false"]))]
         # -- sync.cpp: the auto-reset event ------------------------------------------------------------------------
         sy = rd("lib/port/sync.cpp")
         ew = body_of(sy, "platform_event_wait", "sync:platform_event_wait")
